@@ -13,7 +13,15 @@ RULE = ("cases = (a) every PD code of yui-link/resources/links selected by the t
         "(c) split unions of two pool diagrams; (d) random valid but mostly non-planar codes (random perfect matchings of "
         "the 4n slots, all four crossing types); (e) a malformed stream (labels occurring 1, 3, 4 times, damaged valid "
         "codes) where a non-terminating traversal is reported as DIVERGE by both sides. A case is non-trivial when the "
-        "diagram has at least one crossing and the implementation did not reject it; distinct = distinct case lines; `bgrp` = Braid::inv, the product of two braids in both call forms (panic when the strand counts differ) and the closure of w * w^-1")
+        "diagram has at least one crossing and the implementation did not reject it; distinct = distinct case lines; `bgrp` = Braid::inv, the product of two braids in both call forms (panic when the strand counts differ) and the closure of w * w^-1; "
+        "`resseq <link> <k> (i b)*` = a sequence of 2-5 resolved_at(i, b) calls in arbitrary order (back-to-front, middle-out, "
+        "random, indices >= 1, now and then an index out of range) on genuine diagrams, on partially resolved variants "
+        "(V / H entries in front of / between the crossings), on mixed X/Xm/V/H diagrams, on random valid codes and on the "
+        "malformed stream: after the input and after every step the data vector, the number of unresolved crossings and "
+        "crossing_at(j) for every j = 0..=crossing_num (the last index must panic) are compared exactly with the model "
+        "(Model/LinkAt.v crossing_index / crossing_at: the i-th UNRESOLVED crossing), both call forms (resolved_at / clone + "
+        "crossing_at_mut(i).resolve(b)) must agree, a panicking step prints P and keeps the diagram; resolved_at is also "
+        "applied once to partially resolved diagrams")
 ASSUME = ["planarity of a PD code is not modelled (the code does not check it either)",
           "Link::load is exercised on the corpus (must equal the generator-side parse), not proved",
           "edge labels are unbounded naturals in the model (usize in the code; no arithmetic is done on labels)",
@@ -77,10 +85,10 @@ def kernel_crosscheck(ctx, limit=100):
 
 def run(ctx):
     ctx.equal = equal
-    obl = C.coq_obligations(ctx.pid, ["Extract/ExtractC18.vo"])
+    obl = C.coq_obligations(ctx.pid, ["Extract/ExtractC18.vo"], more_props=["C18At"])
     extra = {}
     if ctx.thorough:
-        extra.update(C.coqchk(ctx.pid))
+        extra.update(C.coqchk(ctx.pid, more_props=["C18At"]))
     corr = C.correspondence(ctx, "c18", nontrivial)
     if corr.get("ok"):
         info, probs = kernel_crosscheck(ctx)
